@@ -33,6 +33,17 @@ the instrumented renderable of impl/impl_c10.py (VR10, built on C08's VR):
   finalize calls, flag; the flag seen by every `_render_`.  Model: model/IterSession.v
   ([scheck10]).
 
+* "drawio": USES of render data other than `_render_`.  One draw() (still / animated), render() or
+  str() of the instrumented renderable, which records `RenderData.finalized` at EVERY entry into
+  renderable-defined code that is handed the render data (`_render_`, `_handle_interrupted_draw_`,
+  `_clear_frame_`, `_finalize_render_data_`), on an output stream whose k-th write()/flush() call
+  raises KeyboardInterrupt / OSError FOR ALL k (incl. the calls of the clean-up blocks), with the
+  j-th sleep() interrupted FOR ALL j, combined with a failing q-th `_render_`; plus a
+  KeyboardInterrupt delivered asynchronously at the k-th line executed inside draw() / _animate_
+  (asyncfault.py; every line in the thorough tier, a spread in the quick tier).  Model:
+  model/DrawUse.v; judge: model/DrawUseTie.v ([dcheck10]: bit 2 = some entry saw finalized data,
+  or the finalizer was not entered exactly once per render data object).
+
 model/IterFinTie.v judges inside Coq: [check10] / [ocheck10] = bit 1 (differs from the
 finalisation ghost of the code model Iter) + bit 2 (the observations alone contradict the
 property: double finalize, render on finalized data, leak, a caller's data finalized,
@@ -46,7 +57,7 @@ import core
 from props import c08 as base
 
 LEVEL = "proof"
-EXTRA_TARGETS = ["model/IterFinTie.vo"]
+EXTRA_TARGETS = ["model/IterFinTie.vo", "model/DrawUseTie.vo"]
 
 N = ["next"]
 KINDS = {0: "StopIteration", 1: "RuntimeError", 2: "AttributeError", 3: "KeyError", 4: "ValueError",
@@ -57,6 +68,10 @@ MODE = {"render": 0, "str": 1, "draw": 2}
 HEADER = ("From Coq Require Import List ZArith.\nImport ListNotations.\n"
           "From TI Require Import model.Iter model.IterSpec model.IterTie model.IterSession model.IterFinTie.\n"
           "Open Scope nat_scope.\n")
+DHEADER = ("From Coq Require Import List.\nImport ListNotations.\n"
+           "From TI Require Import model.DrawUse model.DrawUseTie.\nOpen Scope nat_scope.\n")
+DOP = {"draw": 0, "render": 1, "str": 2}
+HOOKS = {0: "_render_", 1: "_handle_interrupted_draw_", 2: "_clear_frame_", 3: "_finalize_render_data_"}
 
 
 # ----------------------------------------------------------------- generators
@@ -277,6 +292,45 @@ def gen_session(rng, i):
                         frame=0 if n is None or rng.random() < 0.6 else rng.randrange(n), stamp=rng.random() < 0.3)
 
 
+
+def drawio_case(op="draw", **kw):
+    c = {"mode": "drawio", "op": op, "n": 1, "total": 2, "loops": 1, "cache": False, "animate": True, "rfault": None,
+         "io_fault": None, "sleep_fault": None, "async": None, "enumerate_io": True}
+    c.update(kw)
+    return c
+
+
+DRAWIO_CORPUS = [
+    # a still frame: the write of the render output / its flush / the clean-up's newline / its flush fail
+    drawio_case(n=1), drawio_case(n=3, animate=False), drawio_case(n=None, animate=False),
+    drawio_case(n=None, total=0, animate=False), drawio_case("render", n=None, total=0),
+    # animations: first frame, later frames, cursor movements, the clean-up of _animate_ and of draw()
+    drawio_case(n=2), drawio_case(n=2, loops=2, cache=True), drawio_case(n=3, loops=2),
+    drawio_case(n=None, total=2), drawio_case(n=None, total=0), drawio_case(n=None, total=1),
+    # a failing render combined with every stream fault
+    drawio_case(n=3, rfault=1), drawio_case(n=1, rfault=0), drawio_case(n=None, total=3, rfault=2),
+    drawio_case(n=2, loops=2, cache=True, rfault=1),
+    # render() / str(): no stream, the finalizer must still see live data, once
+    drawio_case("render"), drawio_case("render", rfault=0), drawio_case("str", n=3), drawio_case("str", n=None, rfault=0),
+    # a KeyboardInterrupt between any two lines of draw() / _animate_
+    drawio_case(n=1, enumerate_io=False, enumerate_async=1),
+    drawio_case(n=2, enumerate_io=False, enumerate_async=3),
+]
+
+
+def gen_drawio(rng, i, quick):
+    op = rng.choices(["draw", "render", "str"], [86, 7, 7])[0]
+    n = rng.choice([1, 1, 2, 2, 3, None, None])
+    c = drawio_case(op, n=n, total=rng.randint(0, 3), loops=rng.choice([1, 1, 2, 2, 3] if n != 3 else [1, 2]),
+                    cache=rng.random() < 0.5, animate=rng.random() < 0.85,
+                    rfault=None if rng.random() < 0.75 else rng.randrange(4))
+    if op == "draw" and rng.random() < (0.12 if quick else 0.3):
+        c["enumerate_async"] = rng.choice([5, 7, 11]) if quick else rng.choice([1, 1, 2, 3])
+        c["async_offset"] = rng.randrange(11)
+        c["enumerate_io"] = rng.random() < 0.5
+    return c
+
+
 # ----------------------------------------------------------------- encoding to Coq
 
 z = base.z
@@ -375,6 +429,22 @@ def scase_t(c, r):
             f"sc_fin_end := {r['fin_end']}%nat; sc_fz_end := {b(r['fz_end'])}; sc_fin_owner := {r['fin_owner']}%nat |}}")
 
 
+def opt_nat(v):
+    return "None" if v is None else f"(Some {v}%nat)"
+
+
+def dcase_t(c, r):
+    io = c.get("io_fault")
+    io_s = "None" if not io else f"(Some ({io[0]}%nat, {'XKI' if io[1] == 0 else 'XExc'}))"
+    ev = core.coq_list(r["events"], lambda e: f"({e[0]}%nat, {b(e[1])})")
+    return (f"{{| d_op := {DOP[c['op']]}%nat; d_n := {opt_nat(c['n'])}; d_total := {c.get('total', 2)}%nat; "
+            f"d_loops := {c.get('loops', 1)}%nat; d_cache := {b(c.get('cache'))}; d_animate := {b(c.get('animate', True))}; "
+            f"d_rfault := {opt_nat(c.get('rfault'))}; d_io := {io_s}; d_sleep := {opt_nat(c.get('sleep_fault'))}; "
+            f"d_async := {b(c.get('async') is not None)}; d_outcome := {r['outcome']}%nat; d_events := {ev}; "
+            f"d_nret := {r['n_ret']}%nat; d_ioc := {r['io']}%nat; d_slc := {r['sleeps']}%nat; "
+            f"d_fins := {nats(r['fins'])} |}}")
+
+
 def is_iter(c):
     return c.get("mode", "iter") == "iter"
 
@@ -383,12 +453,19 @@ def is_session(c):
     return c.get("mode") == "session"
 
 
+def is_drawio(c):
+    return c.get("mode") == "drawio"
+
+
+IMPL_TIMEOUT = 900  # per driver process; the thorough tier raises it (a loaded machine gives each driver a fraction of a CPU)
+
+
 def evaluate(cases, tag="c10"):
     """cases may carry "enumerate"; returns (variants, codes, errors, observations)"""
     # one driver process per CPU (start-up dominates); cases dealt round-robin so that the expensive
     # (enumerated) ones spread evenly
     order = sorted(range(len(cases)), key=lambda i: (i % core.NCPU, i))
-    dealt = core.run_impl_parallel("impl_c10.py", [cases[i] for i in order])
+    dealt = core.run_impl_parallel("impl_c10.py", [cases[i] for i in order], timeout=IMPL_TIMEOUT)
     groups = [None] * len(cases)
     for i, g in zip(order, dealt):
         groups[i] = g
@@ -400,8 +477,15 @@ def evaluate(cases, tag="c10"):
     codes = [0] * len(variants)
     errors = []
     ii = [k for k, v in enumerate(variants) if is_iter(v)]
-    oi = [k for k, v in enumerate(variants) if not is_iter(v) and not is_session(v)]
+    oi = [k for k, v in enumerate(variants) if not is_iter(v) and not is_session(v) and not is_drawio(v)]
     si = [k for k, v in enumerate(variants) if is_session(v)]
+    di = [k for k, v in enumerate(variants) if is_drawio(v)]
+    if di:
+        res, errs = core.coq_shards(tag + "d", DHEADER, [dcase_t(variants[k], obs[k]) for k in di], "dcase",
+                                    "dbad10 cases", shard=max(200, -(-len(di) // 8)))
+        errors += errs
+        for idx, code in res:
+            codes[di[idx]] = code
     if si:
         res, errs = core.coq_shards(tag + "s", HEADER, [scase_t(variants[k], obs[k]) for k in si], "scase",
                                     "sbad10 cases", shard=120)
@@ -426,7 +510,27 @@ def evaluate(cases, tag="c10"):
 # ----------------------------------------------------------------- reporting
 
 
+def describe_drawio(c):
+    n = "INDEFINITE" if c["n"] is None else c["n"]
+    io = c.get("io_fault")
+    flt = []
+    if io:
+        flt.append(f"stream call #{io[0]} (write/flush, 0-based) raises {'KeyboardInterrupt' if io[1] == 0 else 'OSError'}")
+    if c.get("sleep_fault") is not None:
+        flt.append(f"sleep call #{c['sleep_fault']} raises KeyboardInterrupt")
+    if c.get("rfault") is not None:
+        flt.append(f"_render_ call #{c['rfault']} raises RuntimeError")
+    if c.get("async") is not None:
+        flt.append(f"KeyboardInterrupt delivered at line event #{c['async']} inside draw()/_animate_")
+    what = {"draw": f"draw(animate={c.get('animate', True)}, loops={c.get('loops', 1)}, cache={c.get('cache', False)}, "
+                    "check_size=False) to a non-tty stream", "render": "render()", "str": "str()"}[c["op"]]
+    return (f"{what} of the instrumented renderable: frames={n} stream_frames={c.get('total')}; "
+            + ("; ".join(flt) if flt else "no fault"))
+
+
 def describe(c):
+    if is_drawio(c):
+        return describe_drawio(c)
     if is_iter(c):
         extra = "".join(f" {k}" for k in ("size_fault", "data_fault") if c.get(k))
         if c.get("fin_faults"):
@@ -458,7 +562,12 @@ SIG_KEYS = ("mode", "ctor", "n", "total", "loops", "cache", "size", "dur", "args
             "ops", "size_fault", "data_fault", "animate", "check_size", "allow_scroll", "fin_faults", "steps")
 
 
+DSIG_KEYS = ("mode", "op", "n", "total", "loops", "cache", "animate", "rfault", "io_fault", "sleep_fault", "async")
+
+
 def signature(c):
+    if is_drawio(c):
+        return core.sig({k: c.get(k) for k in DSIG_KEYS})
     d = {k: c.get(k) for k in SIG_KEYS}
     d["mode"] = c.get("mode", "iter")
     if is_iter(c):
@@ -470,7 +579,30 @@ def signature(c):
 
 
 def plain(c):
-    return {k: v for k, v in c.items() if k not in ("enumerate", "enumerate_fin")}
+    return {k: v for k, v in c.items() if k not in ("enumerate", "enumerate_fin", "enumerate_io", "enumerate_async",
+                                                    "async_offset")}
+
+
+def shrink_drawio(c):
+    """greedy: the default renderable / call with the same fault, then the earliest fault position"""
+    cur = plain(c)
+    dflt = plain(drawio_case(c["op"]))
+    for f in ("rfault", "cache", "loops", "animate", "total", "n"):
+        if cur.get(f) != dflt[f]:
+            cand = dict(cur, **{f: dflt[f]})
+            if fails_spec([cand])[0]:
+                cur = cand
+    for f in ("io_fault", "sleep_fault", "async"):
+        v = cur.get(f)
+        if v is None:
+            continue
+        k = v[0] if f == "io_fault" else v
+        lo = 1 if f == "async" else 0
+        cands = [dict(cur, **{f: ([j, v[1]] if f == "io_fault" else j)}) for j in range(lo, min(k, lo + 40))]
+        if cands:
+            hit = next((d for d, ok in zip(cands, fails_spec(cands)) if ok), None)
+            cur = hit or cur
+    return cur
 
 
 def fails_spec(cands, tag="c10s"):
@@ -526,7 +658,7 @@ def shrink_session(c):
 
 
 def simplified(c):
-    if is_session(c):
+    if is_session(c) or is_drawio(c):
         return plain(c)
     flt = dict(c.get("faults") or {})
     if is_iter(c):
@@ -555,6 +687,15 @@ def simplified(c):
 
 
 def what_of(c, r, code):
+    if is_drawio(c):
+        ev = [f"{HOOKS.get(e[0], e[0])}(finalized={bool(e[1])})" for e in r.get("events", [])]
+        bad = [x for x, e in zip(ev, r.get("events", [])) if e[1]]
+        return ("render data used after finalization / not finalized exactly once: " + describe(c)
+                + " -> entries into renderable-defined code that received the render data, in order: " + ", ".join(ev)
+                + (f"; ENTERED WITH FINALIZED DATA: {', '.join(bad)}" if bad else "")
+                + f"; finalizer calls per render data object in the end: {r.get('fins')}; "
+                + f"call ended: {['returned', 'KeyboardInterrupt', 'OSError', 'render error', 'StopIteration'][r['outcome']] if r.get('outcome', 9) < 5 else r.get('other')}; "
+                + f"entries made when it ended: {r.get('n_ret')}")
     if is_session(c):
         seen = {"outcomes": [(x[:1] + [x[1][:3]] if x[0] == "out" else x[:2]) for x in r.get("steps", [])],
                 "finalize calls per step": r.get("fins"), "finalized per step": r.get("fzs"),
@@ -583,6 +724,8 @@ def what_of(c, r, code):
 
 
 def run(ctx):
+    global IMPL_TIMEOUT
+    IMPL_TIMEOUT = 900 if ctx.quick else 3600
     rng = ctx.rng
     if ctx.replay:
         cases = [ctx.replay["replay"]["case"]]
@@ -591,10 +734,12 @@ def run(ctx):
         n_iter = 100 if ctx.quick else 1600
         n_one = 70 if ctx.quick else 1000
         n_sess = 50 if ctx.quick else 900
-        corpus = [copy.deepcopy(c) for c in ITER_CORPUS + ONESHOT_CORPUS + SESSION_CORPUS]
+        n_dio = 30 if ctx.quick else 500
+        corpus = [copy.deepcopy(c) for c in ITER_CORPUS + ONESHOT_CORPUS + SESSION_CORPUS + DRAWIO_CORPUS]
         n_corpus = len(corpus)
         cases = corpus + [gen_iter(rng, i, ctx.quick) for i in range(n_iter)] \
-            + [gen_oneshot(rng, i) for i in range(n_one)] + [gen_session(rng, i) for i in range(n_sess)]
+            + [gen_oneshot(rng, i) for i in range(n_one)] + [gen_session(rng, i) for i in range(n_sess)] \
+            + [gen_drawio(rng, i, ctx.quick) for i in range(n_dio)]
     variants, codes, errors, obs = evaluate(cases)
 
     failing = [k for k, code in enumerate(codes) if code >= 2]
@@ -605,12 +750,15 @@ def run(ctx):
         # fault and just enough `next` operations to reach it (one-shot: the default case of the mode)
         simple = [simplified(c) for c in chosen]
         verdict = fails_spec(simple)
-        has_simple = any(v and not is_session(s) for s, v in zip(simple, verdict))
+        has_simple = any(v and not is_session(s) and not is_drawio(s) for s, v in zip(simple, verdict))
         first_session = next((k for k, c in enumerate(chosen) if is_session(c)), None)
+        first_drawio = next((k for k, c in enumerate(chosen) if is_drawio(c)), None)
         minimal, budget = [], (0 if has_simple else 1)
         for k, (c, s, v) in enumerate(zip(chosen, simple, verdict)):
             if k == first_session:
                 minimal.append(shrink_session(c))
+            elif k == first_drawio:
+                minimal.append(shrink_drawio(c))
             elif v:
                 minimal.append(s)
             elif budget > 0:
@@ -638,7 +786,9 @@ def run(ctx):
          "draw_size_validation_failures": 0, "finalizer_fault_schedule": {}, "finalizer_exception_seen": {},
          "nested_close_calls": 0, "session_steps": {}, "session_iterators_made": 0,
          "session_constructions_refused_finalized_data": 0, "session_owner_finalize_then_reuse": 0,
-         "session_misuse_not_judged": 0}
+         "session_misuse_not_judged": 0, "drawio_operation": {}, "drawio_fault": {}, "drawio_entries_observed": {},
+         "drawio_call_ended": {}, "drawio_interrupted_draw_hook_entered": 0, "drawio_finalized_only_at_gc": 0,
+         "drawio_async_interrupt_before_data_exists": 0, "drawio_stream_fault_position": {}}
 
     def inc(k, v):
         v = str(v)
@@ -656,6 +806,29 @@ def run(ctx):
             inc("finalizer_fault_schedule", ff)
         h["fault_variants" if flt or ff else "histories_unfaulted"] += 1
         h["render_calls_observed"] += len(r.get("log", []))
+        if is_drawio(c):
+            inc("family", "drawio")
+            anim = c["op"] == "draw" and c.get("animate", True) and c["n"] != 1
+            inc("drawio_operation", c["op"] + (" animated" if anim else " still" if c["op"] == "draw" else ""))
+            io = c.get("io_fault")
+            kinds = ([("stream:" + ("KeyboardInterrupt" if io[1] == 0 else "OSError"))] if io else []) \
+                + (["sleep:KeyboardInterrupt"] if c.get("sleep_fault") is not None else []) \
+                + (["async:KeyboardInterrupt"] if c.get("async") is not None else []) \
+                + (["render:RuntimeError"] if c.get("rfault") is not None else [])
+            inc("drawio_fault", "+".join(kinds) or "none")
+            if io:
+                inc("drawio_stream_fault_position", io[0] if io[0] < 12 else "12+")
+            for e in r["events"]:
+                inc("drawio_entries_observed", HOOKS.get(e[0], e[0]))
+            inc("drawio_call_ended", ["returned", "KeyboardInterrupt", "OSError", "render error", "StopIteration"][r["outcome"]]
+                if r["outcome"] < 5 else "other:" + str(r.get("other")))
+            hooked = any(e[0] == 1 for e in r["events"])
+            h["drawio_interrupted_draw_hook_entered"] += hooked
+            h["drawio_finalized_only_at_gc"] += r["n_ret"] < len(r["events"])
+            h["drawio_async_interrupt_before_data_exists"] += (c.get("async") is not None and not r["fins"])
+            if hooked or (c.get("async") is not None and r.get("fired") and r["fins"]):
+                nontrivial.add(signature(c))
+            continue
         if is_session(c):
             inc("family", "session")
             fz, reuse, live = False, False, False
@@ -738,10 +911,13 @@ def run(ctx):
     samples += [describe(v) for v in variants if not is_iter(v) and not is_session(v) and v.get("faults")][:1]
     samples += [describe(v) for v in variants if is_session(v)][:1]
     samples += [describe(v) for v in variants if is_session(v)][-1:]
+    samples += [describe(v) for v in variants if is_drawio(v) and v.get("io_fault")][3:4]
+    samples += [describe(v) for v in variants if is_drawio(v) and v.get("async") is not None][-1:]
     return {
         "corr_name": "life of render data on the real RenderIterator / render() / str() / draw() over the "
                      "instrumented renderable VR10 == finalisation ghost of the Iter model (check10 / ocheck10 bit 1); "
-                     "the observations alone satisfy the property (bit 2)",
+                     "the observations alone satisfy the property (bit 2); drawio family: entry log of all "
+                     "renderable-defined code that receives the render data == model/DrawUse.v (dcheck10)",
         "evaluations": len(variants),
         "distinct_nontrivial": len(nontrivial),
         "rule": f"{len(cases)} base cases ({n_corpus} corpus) expanded by fault enumeration: each history / one-shot "
@@ -762,7 +938,14 @@ def run(ctx):
                 "(_get_render_size_, _get_render_data_).  One-shot: render(), str(), draw() still / animated to a "
                 "StringIO with sizes and paddings around the 80x30 terminal limit, check_size / allow_scroll / "
                 "animate flags, invalid loops / cache / arguments.  Non-trivial: a fault variant in which the "
-                "injected fault was actually hit (iterator histories: with >= 4 operations); distinct by case hash.",
+                "injected fault was actually hit (iterator histories: with >= 4 operations); distinct by case hash.  "
+                "drawio: draw() still / animated (frames {1,2,3,INDEFINITE}, loops 1-3, cache on/off, animate on/off), "
+                "render(), str(), each run unfaulted and then with the k-th write()/flush() of the output stream raising "
+                "KeyboardInterrupt and OSError FOR ALL k (clean-up blocks included), the j-th sleep() raising "
+                "KeyboardInterrupt FOR ALL j, in a quarter of the cases combined with a failing q-th _render_; some cases "
+                "with a KeyboardInterrupt delivered at the k-th line executed inside draw()/_animate_ (quick: every "
+                "5th-11th line, thorough: mostly every line); non-trivial there: the interrupted-draw hook was entered, "
+                "or an asynchronous interrupt hit after the render data existed.",
         "samples": samples,
         "histogram": h,
         "mismatches": mismatches,
@@ -785,6 +968,10 @@ def run(ctx):
             "generator.close() at a plain yield runs no code",
             "skeleton lemmas: the call table of harness/tx/tx_skel.py (which calls create / finalize render data, "
             "which may raise) and the abstract-interpreter soundness theorem EffSound.analyze_sound",
+            "drawio: the output stream is not a tty (draw() then neither hides the cursor nor touches termios) and "
+            "check_size=False; the frame source of the instrumented renderable is modelled in DrawUseTie.pulls_of "
+            "(n * loops frames, later passes from the cache when caching is on; INDEFINITE: `total` frames then "
+            "StopIteration out of _render_); asynchronous interrupts are judged by the specification side only",
             "_finalize_render_data_ may raise (oracle fr in model/IterFin.v; exercised with RuntimeError at scheduled "
             "invocations); RenderIterator.close() is modelled as REPAIRED by pending_fixes/"
             "C10_close_finalizer_raises.diff (_closed set in a finally); the skeleton lemmas still treat Finalize as a "
@@ -794,6 +981,9 @@ def run(ctx):
             "impl driver impl_c10.py: identifies render data objects by a serial number written into their own VR10 "
             "namespace; counts _finalize_render_data_ per object; reads RenderData.finalized inside _render_ and "
             "after every operation, iterator._closed after every operation (model agreement only; the property "
-            "side uses the public behaviour: next() -> StopIteration, control operations -> FinalizedIteratorError)",
+            "side uses the public behaviour: next() -> StopIteration, control operations -> FinalizedIteratorError); "
+            "drawio: overrides _handle_interrupted_draw_ / _clear_frame_ / _finalize_render_data_ / _render_ of the test "
+            "renderable to log RenderData.finalized at entry, replaces sys.stdout by a counting StringIO and the "
+            "module's sleep by a counting stub; harness/impl/asyncfault.py (sys.settrace) for asynchronous interrupts",
         ],
     }
